@@ -178,11 +178,20 @@ pub fn build_guest(e: &mut Ent) -> Guest {
     }
     // rare class: a burst of several hundred requests (sizes around 2^8 and 2^9) needs a longer tail
     // (only with handlers that keep interrupts masked: hundreds of nested frames would overflow the guest's stack)
-    let big = if !nested && e.chance(1, 12) { Some(e.pick(&[255u32, 256, 257, 300, 511, 512, 513, 1000])) } else { None };
+    // - and, rarer, around 2^12 and 2^16 (the widths a queue bound or a 16-bit count would have)
+    let big = if !nested && e.chance(1, 12) {
+        Some(match e.below(64) {
+            0 => e.pick(&[65535u32, 65536, 65537]),
+            1..=6 => e.pick(&[4095u32, 4096, 4097, 4100, 5000]),
+            _ => e.pick(&[255u32, 256, 257, 300, 511, 512, 513, 1000]),
+        })
+    } else {
+        None
+    };
     if let Some(n) = big {
-        emit(&mut m, Insn::MovImm { sz: Sz::W, imm: n + 32, d: 5 });
+        emit(&mut m, Insn::MovImm { sz: Sz::L, imm: n + 32, d: 5 });
         let top = m.len();
-        emit(&mut m, Insn::Un { op: UnOp::Dec1, sz: Sz::W, d: 5 });
+        emit(&mut m, Insn::Un { op: UnOp::Dec1, sz: Sz::L, d: 5 });
         let disp = top as i32 - (m.len() as i32 + 2);
         emit(&mut m, Insn::Bcc { cond: 6, disp, wide: false });
     }
@@ -449,14 +458,15 @@ fn case_from_json(v: &Value) -> Option<(Guest, Vec<(u32, u8)>)> {
     let g = |i: usize| l.get(i).and_then(|x| x.as_u64()).unwrap_or(0) as u32;
     let lay = Layout { code: g(0), handlers: g(1), counters: g(2), data: g(3), stack_top: g(4), stop: g(5) };
     let vectors = v.get("vectors")?.as_array()?.iter().filter_map(|x| x.as_u64().map(|x| x as u8)).collect();
-    let sched = v.get("schedule")?.as_array()?.iter().filter_map(|p| Some((p.get(0)?.as_u64()? as u32, p.get(1)?.as_u64()? as u8))).collect();
-    Some((Guest { prog: Prog::from_json(v.get("prog")?)?, lay, vectors, nested: v.get("nested")?.as_bool()?, big: None }, sched))
+    let sched: Vec<(u32, u8)> = v.get("schedule")?.as_array()?.iter().filter_map(|p| Some((p.get(0)?.as_u64()? as u32, p.get(1)?.as_u64()? as u8))).collect();
+    Some((Guest { prog: Prog::from_json(v.get("prog")?)?, lay, vectors, nested: v.get("nested")?.as_bool()?, big: if sched.len() > 200 { Some(sched.len() as u32) } else { None } }, sched))
 }
 
 /// the full judgement of one (guest, schedule): lockstep run with the schedule, run without, metamorphic compare
 pub fn judge(emu: &mut Emu, g: &Guest, sched: &[(u32, u8)]) -> Result<(RunInfo, RunInfo), String> {
-    let base = run_guest(emu, g, &[], 6000).map_err(|m| format!("without interrupts: {}", m))?;
-    let with = run_guest(emu, g, sched, 80000)?;
+    let extra = g.big.map(|n| n as usize).unwrap_or(0);
+    let base = run_guest(emu, g, &[], 6000 + 3 * extra).map_err(|m| format!("without interrupts: {}", m))?;
+    let with = run_guest(emu, g, sched, 80000 + 24 * extra)?;
     // apart from handler effects the program computes the same result
     if with.final_er != base.final_er || with.final_ccr != base.final_ccr {
         return Err(format!("final registers/CCR differ from the run without interrupts: {:08x?}/{:02x} vs {:08x?}/{:02x}", with.final_er, with.final_ccr, base.final_er, base.final_ccr));
@@ -504,12 +514,16 @@ pub fn run(ctx: &Ctx) -> i32 {
     let mut stats = par_shards(ctx, nshards, |shard| {
         let w = Worker::new(ctx);
         let ent = entropy_n(900);
+        // a failing case with a burst of thousands of entries costs up to seconds per evaluation: shrinking is
+        // bounded by effort (iterations and wall clock) - that only limits how small the replay file gets
+        set_shrink_iters(300);
+        set_shrink_time_ms(20_000);
         let _ = run_prop(mix(ctx.seed, 0x1001_0000 + shard as u64), n / nshards as u32, &ent, |raw, shrinking| {
             let mut e = Ent::new(raw);
             let g = build_guest(&mut e);
             // the schedule's horizon needs the length of the undisturbed run
             let mut emu = w.emu.borrow_mut();
-            let base_len = match run_guest(&mut emu, &g, &[], 6000) {
+            let base_len = match run_guest(&mut emu, &g, &[], 6000 + 3 * g.big.map(|n| n as usize).unwrap_or(0)) {
                 Ok(i) => i.steps,
                 Err(_) => 200,
             };
@@ -526,7 +540,7 @@ pub fn run(ctx: &Ctx) -> i32 {
                             st.class("program with handlers that re-enable interrupts (nesting)");
                         }
                         if g.big.is_some() {
-                            st.class("schedule with a burst of 255-1000 requests of one vector");
+                            st.class("schedule with a burst of 255-65537 requests");
                         }
                         let nt = with.raised_while_masked >= 1 || with.max_pending >= 2;
                         if with.raised_while_masked >= 1 {
